@@ -4,6 +4,7 @@ import Upf.Proofs.Tab
 import Upf.Model.AgentMod
 import Upf.Proofs.BessAddDel
 import Upf.Proofs.BessImage
+import Upf.Proofs.History
 import Upf.Proofs.GenEqAgent
 /-!
 # C03 — BESS tables are exactly the image of the live sessions' rules
@@ -126,8 +127,10 @@ section
 `Agent.Inv` = association indices distinct ∧ stored sessions pairwise disjoint in SEID and keys ∧ `ImgOf` (under every
 key of each lookup table lies exactly the value the owning session's rules denote; nothing under any other key). The
 envelope `EnvOK` is the one of the property: a session that an establishment stores has a SEID and match keys no stored
-session has (unambiguous rule sets; C07 gives the SEID part per association). Modifications are outside this theorem
-(open findings: key-changing Update PDR, QER relabelling) and stay decided per observed history. -/
+session has (unambiguous rule sets; C07 gives the SEID part per association). Session Modifications that carry Update FAR IEs only
+(handover, idle / active transitions, action changes) are inside the theorem, for sessions whose session-QER marking is stable;
+modifications that create / update / remove PDRs or QERs are outside it (open findings: key-changing Update PDR, QER relabelling)
+and stay decided per observed history. -/
 
 theorem image_after_establishment (cfg : Cfg) (w : World) (a lseid : Nat) (r : EstReq) (hI : Inv cfg w)
     (henv : (establish cfg w a lseid r).2.upSeid.isSome → ∀ s : Session, newSession cfg w a lseid r = some s → ∀ s' ∈ allSessions w, Disj cfg s s') :
@@ -141,6 +144,17 @@ theorem image_after_report_context_not_found (cfg : Cfg) (w : World) (a seid : N
 
 theorem image_after_association_end (cfg : Cfg) (w : World) (a : Nat) (hI : Inv cfg w) : Inv cfg (shutdownConn cfg w a) :=
   shutdown_inv cfg w a hI
+
+/-- a modification that only updates FARs — accepted, or refused because an Update FAR does not parse — upserts farLookup entries under
+the keys the session already has (the key determines the FAR ID: `farKey_inj`), so the tables stay the image of the store -/
+theorem image_after_far_update (cfg : Cfg) (w : World) (a : Nat) (r : ModReq) (s0 : Session) (hI : Inv cfg w) (hr : FarOnly r)
+    (h : (w.conn a).sessions.find? (·.lseid = r.seid) = some s0)
+    (hstable : markSessionQer s0.pdrs s0.qers = (s0.qers, s0.pdrs))
+    (hwf : ∀ q ∈ s0.fars, q.fseID = s0.lseid) : Inv cfg (modify cfg w a r).world := modFar_inv cfg w a r s0 hI hr h hstable hwf
+
+/-- the stored FARs of an accepted establishment carry the session's SEID (what `image_after_far_update` asks of them) -/
+theorem stored_fars_carry_the_seid (cfg : Cfg) (lseid ip : Nat) (upd : Bool) (ies : List FarIE) (fs : List Far)
+    (h : mapFars cfg lseid ip upd ies = .ok fs) : ∀ f ∈ fs, f.fseID = lseid := mapFars_fse cfg lseid ip upd ies fs h
 
 /-- the invariant is the statement about `Agent.image` (the specification the trace oracle evaluates): each lookup
 table, read as a map, is the table obtained by installing every stored session's rules on empty tables -/
@@ -167,6 +181,11 @@ def exP1b : Agent.PdrIE := { exP1 with fteid := some (false, 2000, 0xC6120101), 
 def exP2b : Agent.PdrIE := { exP2 with ueip := some (2, 0x0A3C0002) }
 def exReq2 : Agent.EstReq := { exReq with cpSeid := 5002, pdrs := [exP1b, exP2b] }
 def exW1 : Agent.World := (Agent.establish exCfg exW 0 77 exReq).1
+-- a handover of the first session (Update FAR 2 only) is in the envelope: FAR-only, stable marking, FARs carry the SEID
+example : FarOnly { seid := 77, updateFars := [{ exF2 with fwd := some { dst := some 0, ohc := some (2001, 0xC612010A) } }] } ∧
+    (∀ s0 ∈ (exW1.conn 0).sessions, markSessionQer s0.pdrs s0.qers = (s0.qers, s0.pdrs) ∧ ∀ q ∈ s0.fars, q.fseID = s0.lseid) := by
+  refine ⟨⟨rfl, rfl, rfl, rfl, rfl, rfl, rfl, rfl⟩, ?_⟩
+  decide +kernel
 example : (Agent.establish exCfg exW1 0 78 exReq2).2.cause = 1 ∧ (Agent.establish exCfg exW1 0 78 exReq2).1.tables.pdr.length = 4 := by decide +kernel
 example : (allSessions exW1).length = 1 := by decide +kernel
 example : ∀ s, newSession exCfg exW1 0 78 exReq2 = some s → ∀ s' ∈ allSessions exW1, Disj exCfg s s' := by
